@@ -6,6 +6,7 @@ mod names;
 mod pool;
 mod sema;
 mod text;
+mod textspace;
 
 use std::collections::BTreeMap;
 use std::time::Duration;
@@ -95,9 +96,15 @@ pub fn set_extra(k: &str, v: String) {
 
 pub fn emit_and_exit(rep: Report) -> ! {
     let extra = EXTRA.lock().unwrap().clone();
-    print!("{}", report_json(&rep, &extra));
     use std::io::Write;
-    std::io::stdout().flush().ok();
+    let text = report_json(&rep, &extra);
+    match std::env::var("SEQMC_OUT") {
+        Ok(p) => std::fs::write(p, text).expect("write report"),
+        Err(_) => {
+            print!("{}", text);
+            std::io::stdout().flush().ok();
+        }
+    }
     std::process::exit(0);
 }
 
@@ -149,6 +156,16 @@ fn main() {
         "files" => files::run(&args),
         "sema" => sema::run(&args),
         "names" => names::run(&args),
+        "semadump" => {
+            let t = std::fs::read_to_string(args.get("file", "/dev/stdin")).unwrap();
+            let mut rep = Report::default();
+            let r = sema::check_sema(&t, &t, &mut rep);
+            println!("result: {:?}", r.map(|r| (r.ok, r.errors)));
+            for (k, f) in &rep.findings {
+                println!("{} :: {}", k, f.detail);
+            }
+            std::process::exit(0);
+        }
         "dump" => {
             let t = std::fs::read_to_string(args.get("file", "/dev/stdin")).unwrap();
             let (f, e) = text::parse(&t);
